@@ -41,6 +41,9 @@ ARGS = [
     {"fnr": [], "fpr": [[1, 4], [1, 1]], "thr": [], "nb": 4},
     {"fnr": [], "fpr": [], "thr": [[1, 2, 0], [1, 1, 0]], "nb": -1},
     {"fnr": [[1, 3]], "fpr": [[2, 3]], "thr": [[0, 1, 0]], "nb": -1},
+    {"fnr": [[1, 3], [1, 2]], "fpr": [], "thr": [], "nb": 2},          # explicit points AND a small nb_points
+    {"fnr": [], "fpr": [], "thr": [[1, 2, 0]], "nb": 1},
+    {"fnr": [], "fpr": [[1, 4]], "thr": [], "nb": 3},
 ]
 
 
@@ -62,6 +65,12 @@ def objects(par, easy=((0, 0), (2, 3))):
                             for ec in ("pos", "neg"):
                                 out.append({"pos": list(pos), "neg": list(neg), "ep": ep, "en": en,
                                             "sc": sc, "ec": ec})
+    # class sizes at which (1/n)*n is not exactly 1 in floating point (n = 49, 98, 103, 107):
+    # the rule of three must still fire at rate 0 only, not at rate 1/n
+    for (pos, neg) in (((0, 2), (1, 1)), ((1, 2), (0, 2)), ((0, 1), (1, 2))):
+        for ep, en in ((47, 96), (101, 105)):
+            for sc in ("pos", "neg"):
+                out.append({"pos": list(pos), "neg": list(neg), "ep": ep, "en": en, "sc": sc, "ec": "pos"})
     return out
 
 
@@ -119,7 +128,9 @@ def events_for_case(o, cid, g, ids, seed, tier):
         return evs
     methods = ["quantile", "bc", "bca"]
     for j, a in enumerate(ARGS):
-        alpha = [50, 100][(cid + j) % 2]
+        if tier == "quick" and (cid + j) % 2 and len(o["pos"]) + len(o["neg"]) > 2 and o["ep"] < 40:
+            continue                       # quick tier: every other argument combination per object
+        alpha = [50, 100][(cid // 2 + j) % 2]
         band_event(ev, s, o, g, "roc_with_ci", a, alpha, "identity", methods[(cid + j) % 3], seed + cid)
         if (cid + j) % 3 == 0 or tier == "thorough":
             band_event(ev, s, o, g, "roc_with_ci", a, alpha,
